@@ -76,6 +76,11 @@ class C15(Prop):
                                      rng.choice(['path', 'gz', 'bz2', 'mem']), rng.random() < 0.8, rows))
             yield Case('roundtrip', ('csv_append', delim, quote, q, 'utf-8', rng.choice(['path', 'gz', 'bz2', 'mem']),
                                      self._rows(rng, True), self._rows(rng, True)))
+            yield Case('roundtrip', ('json_ragged', rng.random() < 0.5, rng.choice(['path', 'mem']),
+                                     tuple(tuple(rng.choice(['x', 1, None, 'é']) for _ in range(rng.choice([0, 1, 2, 3, 3])))
+                                           for _ in range(rng.choice([1, 2, 4])))))
+            yield Case('roundtrip', ('csv_noheader', rng.choice([(), ('a', 'b')]), rng.choice(['path', 'mem']),
+                                     self._rows(rng, False, 3)))
             yield Case('roundtrip', ('tsv_append', rng.choice(['utf-8', 'latin-1', 'cp1252', 'utf-16-le']),
                                      rng.choice(['path', 'gz', 'mem']), self._rows(rng, True), self._rows(rng, True)))
             yield Case('roundtrip', ('rewrite', rng.choice(['csv', 'tsv', 'pickle', 'json', 'text']), rng.choice(['path', 'mem', 'gz']),
@@ -185,6 +190,29 @@ class C15(Prop):
             both, p2 = self._source(sk, td, 'b')
             etl.tocsv(t1 + t2[1:], both, encoding=enc, **kw)
             return self._bytes_of(src, path, sk) == self._bytes_of(both, p2, sk)
+        if kind == 'json_ragged':
+            # short rows are written with None for the fields they lack, long rows are trimmed
+            _, lines, sk, rows = arg
+            hdr = ('a', 'b', 'c')
+            t = [hdr] + [list(r) for r in rows]
+            src, path = self._source(sk, td)
+            etl.tojson(t, src, lines=lines)
+            back = list(etl.fromjson(self._reader_source(src, path), lines=lines, header=list(hdr)))
+            want = [hdr] + [tuple((r[i] if i < len(r) else None) for i in range(3)) for r in rows]
+            if back != want:
+                return False
+            # every record carries every field, so the fields can be rediscovered from the file alone
+            back2 = list(etl.fromjson(self._reader_source(src, path), lines=lines))
+            return back2 == want
+        if kind == 'csv_noheader':
+            # written without its header and read back with the header supplied (also an empty one)
+            _, hdr, sk, rows = arg
+            rows = [tuple(cell_text(c) for c in r) for r in rows]
+            t = [tuple(hdr)] + rows
+            src, path = self._source(sk, td)
+            etl.tocsv(t, src, encoding='utf-8', write_header=False)
+            back = list(etl.fromcsv(self._reader_source(src, path), encoding='utf-8', header=hdr))
+            return back == [tuple(hdr)] + rows
         if kind == 'tsv_append':
             _, enc, sk, rows1, rows2 = arg
             t1 = [('h1', 'h2')] + [list(r) for r in rows1]
